@@ -150,6 +150,16 @@ TEXT.update({
  },
 })
 
+TEXT.update({
+ "C31": {
+  "engine": "M",
+  "technique": "symbolic execution of the MIR of InMemDicomObject::command_from_iter_with_dict (+closure, even_len) over abstract elements with symbolic tags and value lengths; BTreeMap as a finite map with symbolic keys; z3",
+  "level": "For 2-3 elements with symbolic tags (which may coincide, in or outside group 0000) and symbolic value lengths the solver shows on every path that the recorded Command Group Length equals 8 + even(length) summed over the OTHER "
+           "command elements that remain in the set.",
+  "note": "that calculate_byte_len equals the bytes the encoder writes per VR is not part of this check; counterexamples are replayed by writing the real command set in Implicit VR LE and counting bytes",
+ },
+})
+
 NOT_APPLICABLE = {
  "C01": "write->read round trip needs DataSetReader over the real StatefulDecoder in the same harness as the writer; text/date value readers exceed 8 GB in CBMC (measured under C07) and the writer->reader harness was at 10 GB after 6 min; writer side is claimed under C04, headers under C03, numeric value readers under C07; the composition is not claimed",
  "C02": "same kernels as C01 (reader + writer in one harness beyond CBMC's reach here); the keep-lengths writer strategy on reference-encoded shapes is part of C04",
@@ -163,7 +173,6 @@ NOT_APPLICABLE = {
  "C27": "read_pdu_from_wire works on BufReader + BytesMut (pointer-rich, bytes::Bytes pointer tagging defeats CBMC's pointer model as measured under C25); not built",
  "C28": "acceptor negotiation over Vec<String> needs the global registry and a hook into process_a_association_rq; Engine M vocabulary for it was not built",
  "C30": "release/abort conformance needs associations over a harness stream (hook) and a symbolic peer; not built; true two-peer interleavings are outside both engines",
- "C31": "command_from_element_iter arithmetic was planned on Engine M (BTreeMap with concrete keys, calculate_byte_len); not built in this session",
  "C32": "file-system effect of a bin crate's TCP loop (sockets, threads, global registry, write_to_file); no callable unit to execute symbolically, Kani has no file-system model",
  "C33": "behaviour of the storescu binary over sockets with image transcoding; not encodable within reach of Kani or the MIR interpreter",
  "C34": "fault injection harnesses (failing writer/reader at a symbolic offset) over StatefulEncoder / write_pdu were designed (kani/common CountW has the failure modes) but not built; io::Error paths with symbolic conditions exploded in the design probes",
